@@ -126,7 +126,7 @@ func runC14(c *Check) {
 		}
 		nRet++
 		ok := filterHead != nil && filterHead.Dominates(r.Block())
-		c.Ob("R14.2", fmt.Sprintf("non-empty return@block%d", r.Block().Index), ok, p.Pos(r.Pos()),
+		c.Ob("R14.2", fmt.Sprintf("non-empty return #%d", nRet), ok, p.Pos(r.Pos()),
 			"a header slice is returned only from inside or after the cutoff filter loop (no path hands headers to pruning without the time filter)")
 	}
 	c.Floor("R14.2", "non-empty returns of findPruneableHeaders", nRet, 2)
@@ -207,6 +207,9 @@ func runC14(c *Check) {
 		"the checkpoint is shared by the pruning routine, the header-delete hook and Stop",
 		map[string]string{"pruner.NewService": "constructor", "Service).Start": "runs before the routines are started", "Service).Stop": "runs after the pruning routine has finished (waits on doneCh)"}})
 	c.Floor("R14.4", "accesses of Service.checkpoint", ng, 8)
+	for _, f := range la.funcs {
+		la.checkReleasedAtReturns(c, "R14.4", f)
+	}
 	// R14.5
 	nStores := 0
 	for _, f := range p.FuncsOfPkg("pruner") {
